@@ -583,7 +583,11 @@ def run(ctx):
                  'against the expectation derived from the GIR text; plus %d scanner-written *-expected.gir files. '
                  'non-trivial = every case that produced a GIR' % (3 if thorough else 2, len(MENU), len(corpus_files())),
             bounds={'menu': len(MENU), 'subset_size': 3 if thorough else 2, 'cases': len(cases)})
-    for r in pmap(_work, [(thorough, c) for c in chunked(rotate(cases, ctx.seed), 64 if thorough else 32)]):
+    # the sanitizer build is ~4x slower: in thorough it takes the singles and pairs, the triples use the plain build
+    small = [c for c in cases if len(c[0]) <= 2]
+    large = [c for c in cases if len(c[0]) > 2]
+    for r in pmap(_work, [(thorough, c) for c in chunked(rotate(small, ctx.seed), 64 if thorough else 32)] +
+                  [(False, c) for c in chunked(rotate(large, ctx.seed), 64)]):
         ctx.merge(r)
     for r in pmap(_work_corpus, [(thorough, [f]) for f in corpus_files()]):
         ctx.merge(r)
